@@ -46,6 +46,12 @@ def order_pool():
     P["tb_2"] = X.tup([("@", N(2)), ("@byte", N(3))])
     P["d19_23"] = X.dict_([(N(1), N(9)), (N(2), N(3))])
     P["rj_ba"] = X.join("<&>", X.rel(["b"], [[N(2)], [N(3)]]), X.rel(["a"], [[N(1)]]))
+    # one relation three ways: join-built (stored columns b, a), written literally, and a neighbour differing in the last row
+    P["rj_4"] = X.join("<&>", X.rel(["b"], [[N(1)], [N(2)]]), X.rel(["a"], [[N(2)], [N(1)]]))
+    P["r_4lit"] = X.rel(["a", "b"], [[N(1), N(1)], [N(1), N(2)], [N(2), N(1)], [N(2), N(2)]])
+    P["r_4nb"] = X.rel(["a", "b"], [[N(1), N(1)], [N(1), N(2)], [N(2), N(1)], [N(2), N(3)]])
+    P["rj_3c"] = X.join("<&>", X.join("<&>", X.rel(["c"], [[N(1)], [N(2)]]), X.rel(["a"], [[N(2)], [N(1)]])), X.rel(["b"], [[N(0)]]))
+    P["r_3clit"] = X.rel(["a", "b", "c"], [[N(1), N(0), N(1)], [N(1), N(0), N(2)], [N(2), N(0), N(1)], [N(2), N(0), N(3)]])
     P["tt"] = X.tup([("a", X.tup([("b", N(1))]))])
     P["tset"] = X.tup([("a", X.set_([N(1)]))])
     return P
@@ -84,7 +90,7 @@ def main(tier, seed, replay=None):
             pick.update(rng.sample(lst, min(len(lst), 2)))
         # near-miss pairs are always in: they differ in exactly one respect (hole vs {}, key vs value order, offset only, ...)
         pick.update(n for n in ("ar_hole", "ar_empty_mid", "ar_empty_mid2", "ar_hole2", "ar_123", "te_19", "te_23", "te_13", "ti_19", "ti_23",
-                                "tc_1", "tc_2", "tb_1", "tb_2", "d19_23", "d12", "rj_ba", "r_ab", "str_off", "str_a", "by_off", "by_12",
+                                "tc_1", "tc_2", "tb_1", "tb_2", "d19_23", "d12", "rj_ba", "r_ab", "rj_4", "r_4lit", "r_4nb", "rj_3c", "r_3clit", "str_off", "str_a", "by_off", "by_12",
                                 "empty", "true", "t0", "neg_set", "neg_tup") if n in P)
         rest = [n for n in names if n not in pick]
         pick.update(rng.sample(rest, min(len(rest), 6)))
